@@ -61,7 +61,11 @@ func (d *ldrv) result(before map[string]int) string {
 	var qs []string
 	for _, p := range d.f.Peers() {
 		evs := d.f.PeerQueue(p).Events()
-		qs = append(qs, fmt.Sprintf("%s:%d", p, len(evs)))
+		ids := make([]string, len(evs))
+		for i, e := range evs {
+			ids[i] = fmt.Sprint(e.Id)
+		}
+		qs = append(qs, fmt.Sprintf("%s:%d:%s", p, len(evs), strings.Join(ids, "+")))
 		var s []string
 		for _, e := range evs[before[p]:] {
 			s = append(s, showEv(e))
